@@ -31,17 +31,23 @@ vars == <<rep>>
 
 Special(c) == IF c \in {"plain", None} THEN 0 ELSE 1
 RECURSIVE SumFiles(_)
-SumFiles(fs) == IF fs = <<>> THEN 0 ELSE Special(Head(fs).pathC) + Special(Head(fs).nameC) + SumFiles(Tail(fs))
+(* a file with two or more measurements comes in three layouts of their positions - in source order, in reverse  *)
+(* order, all starting at one and the same position (a report stores the list it was given: the reader and the  *)
+(* writer keep its order whatever the positions say); such a file spends one unit of the budget                  *)
+Layouts == {"source", "reversed", "tied"}
+MeasSpecial(f) == IF f.nmeas >= 2 THEN 1 ELSE 0
+SumFiles(fs) == IF fs = <<>> THEN 0 ELSE Special(Head(fs).pathC) + Special(Head(fs).nameC) + MeasSpecial(Head(fs)) + SumFiles(Tail(fs))
 NoRepo == <<>>
 RepoSpecial(r) == IF r = NoRepo THEN 0 ELSE Special(r[1]) + Special(r[2]) + Special(r[3])
 Specials(r) == Special(r.version) + Special(r.root) + RepoSpecial(r.repo) + SumFiles(r.files)
 Within(r) == Specials(r) <= MaxSpecial
 
 Init == rep = [version |-> "plain", root |-> "plain", repo |-> NoRepo, files |-> <<>>, sums |-> "distinct"]
-AddFile(shape, pc, nc, n) ==
+AddFile(shape, pc, nc, n, lay) ==
   /\ Len(rep.files) < MaxFiles
+  /\ (n < 2 => lay = "source")
   /\ \A i \in 1..Len(rep.files) : ~(rep.files[i].shape = shape /\ rep.files[i].pathC = pc)      \* distinct paths
-  /\ LET r == [rep EXCEPT !.files = Append(@, [shape |-> shape, pathC |-> pc, nameC |-> nc, nmeas |-> n])]
+  /\ LET r == [rep EXCEPT !.files = Append(@, [shape |-> shape, pathC |-> pc, nameC |-> nc, nmeas |-> n, layout |-> lay])]
      IN  Within(r) /\ rep' = r
 SetRepo(o, n, b) == /\ rep.repo = NoRepo
                     /\ LET r == [rep EXCEPT !.repo = <<o, n, b>>] IN Within(r) /\ rep' = r
@@ -52,7 +58,7 @@ SetVersion(c) == /\ rep.version = "plain" /\ c # "plain"
 ShareChecksum == /\ rep.sums = "distinct" /\ Len(rep.files) >= 2 /\ rep' = [rep EXCEPT !.sums = "same"]
 SetRoot(c) == /\ rep.root = "plain" /\ c # "plain"
               /\ LET r == [rep EXCEPT !.root = c] IN Within(r) /\ rep' = r
-Next == \/ \E s \in PathShapes, pc \in Classes, nc \in Classes, n \in 0..MaxMeas : AddFile(s, pc, nc, n)
+Next == \/ \E s \in PathShapes, pc \in Classes, nc \in Classes, n \in 0..MaxMeas, lay \in Layouts : AddFile(s, pc, nc, n, lay)
         \/ \E o \in Classes, n \in Classes, b \in Classes : SetRepo(o, n, b)
         \/ \E c \in Classes \cup {None} : SetVersion(c)
         \/ \E c \in Classes : SetRoot(c)
